@@ -349,8 +349,8 @@ def _(c):
     c.m.functions.append(f)
     if not any(o.domain == "local.dom" for o in c.m.opset_import):
         c.m.opset_import.add(domain="local.dom", version=1)
-@carrier("graph_name=")               # empty graph name (explicit default)
-def _(c): c.g.name = ""
+@carrier("graph_name")
+def _(c): c.g.name = "graph name ☃ / with::separators"
 @carrier("graph_name.subgraph", ("subgraph",))
 def _(c): c.sub().name = "then_graph_renamed"
 @carrier("node_names")
@@ -436,17 +436,20 @@ def _(c):
     n.attribute.append(oh.make_attribute("a_fs", [float("inf"), -0.0, 1e-45]))
     n.attribute.append(oh.make_attribute("a_is", [-(1 << 63), (1 << 63) - 1]))
     n.attribute.append(oh.make_attribute("a_ss", ["", "☃"]))
-    n.attribute.append(oh.make_attribute("a_tp", oh.make_tensor_type_proto(TP.BFLOAT16, ["N", 3])))
     n.attribute.append(oh.make_attribute("a_e_ints", [], attr_type=onnx.AttributeProto.INTS))
+@carrier("attribute.type_proto")
+def _(c):
+    c.node("q").attribute.append(oh.make_attribute("a_tp", oh.make_tensor_type_proto(TP.BFLOAT16, ["N", 3])))
 
 
 def _use_tensor(c, name, elem_type):
     """Consume initializer `name` by a node no API can fold or remove: Reshape(name, shp) -> graph output."""
     if not any(i.name == "shp" for i in c.g.input):
-        c.g.input.add().CopyFrom(oh.make_tensor_value_info("shp", TP.INT64, [1]))
+        # two unknown output dims: no rule can materialise the shape, nothing can be folded
+        c.g.input.add().CopyFrom(oh.make_tensor_value_info("shp", TP.INT64, [2]))
     out = name + "_r"
     c.g.node.append(oh.make_node("Reshape", [name, "shp"], [out]))
-    c.g.output.add().CopyFrom(oh.make_tensor_value_info(out, elem_type, ["n"]))
+    c.g.output.add().CopyFrom(oh.make_tensor_value_info(out, elem_type, [out + "_a", out + "_b"]))
 
 
 CARRIER_NAMES = list(CARRIERS)
